@@ -159,7 +159,11 @@ func (st *keState) apply(op []string, o *hx.Out) {
 			return st.msgStr(st.sess[atoi(op[1])].Handshake(nil))
 		case "s-deliver":
 			s := st.sess[atoi(op[1])]
-			isApp, out, err := s.Deliver(nil, hx.Exact(st.msgs[atoi(op[2])]), st.at(atoi(op[3])))
+			isApp, out, err := s.Deliver(nil, hx.Lend(st.msgs[atoi(op[2])]), st.at(atoi(op[3])))
+			if out != nil {
+				out = append([]byte{}, out...)
+			}
+			hx.Reclaim() // the caller's buffer is only valid during the call
 			var r string
 			switch {
 			case err != nil:
@@ -218,7 +222,11 @@ func (st *keState) apply(op []string, o *hx.Out) {
 		case "c-deliver":
 			kc := st.chans[atoi(op[1])]
 			kc.sent = nil
-			out, err := kc.c.Deliver(nil, hx.Exact(st.msgs[atoi(op[2])]))
+			out, err := kc.c.Deliver(nil, hx.Lend(st.msgs[atoi(op[2])]))
+			if out != nil {
+				out = append([]byte{}, out...)
+			}
+			hx.Reclaim()
 			app := "-"
 			if err != nil {
 				app = "err"
